@@ -1,5 +1,9 @@
 ;;; block head
 (define-sort Bytes () (Array Int Int))
+; ix(o,k) = o+k: position of element k of a slice whose backing-array offset is o. Kept uninterpreted (with its defining
+; axiom) so that quantified facts about slice elements have triggers without interpreted arithmetic.
+(declare-fun ix (Int Int) Int)
+(assert (forall ((o Int) (k Int)) (! (= (ix o k) (+ o k)) :pattern ((ix o k)))))
 
 ;;; block lcp
 ; longest common prefix of the byte ranges a[alo,ahi) and b[blo,bhi): given by its defining properties
@@ -51,12 +55,12 @@
 
 ;;; block bigendian
 ; big-endian value of the first 2/4/8 bytes of a byte range (hi is not used; callers guarantee the length)
-(define-fun be16 ((a Bytes) (lo Int) (hi Int)) Int (+ (* 256 (select a lo)) (select a (+ lo 1))))
+(define-fun be16 ((a Bytes) (lo Int) (hi Int)) Int (+ (* 256 (select a (ix lo 0))) (select a (ix lo 1))))
 (define-fun be32 ((a Bytes) (lo Int) (hi Int)) Int
-  (+ (* 16777216 (select a lo)) (* 65536 (select a (+ lo 1))) (* 256 (select a (+ lo 2))) (select a (+ lo 3))))
+  (+ (* 16777216 (select a (ix lo 0))) (* 65536 (select a (ix lo 1))) (* 256 (select a (ix lo 2))) (select a (ix lo 3))))
 (define-fun be64 ((a Bytes) (lo Int) (hi Int)) Int
-  (+ (* 72057594037927936 (select a lo)) (* 281474976710656 (select a (+ lo 1))) (* 1099511627776 (select a (+ lo 2)))
-     (* 4294967296 (select a (+ lo 3))) (* 16777216 (select a (+ lo 4))) (* 65536 (select a (+ lo 5))) (* 256 (select a (+ lo 6))) (select a (+ lo 7))))
+  (+ (* 72057594037927936 (select a (ix lo 0))) (* 281474976710656 (select a (ix lo 1))) (* 1099511627776 (select a (ix lo 2)))
+     (* 4294967296 (select a (ix lo 3))) (* 16777216 (select a (ix lo 4))) (* 65536 (select a (ix lo 5))) (* 256 (select a (ix lo 6))) (select a (ix lo 7))))
 
 ;;; block keyvaluetypes
 ; HBase KeyValue.Type codes (Put 4, Delete 8, DeleteFamilyVersion 10, DeleteColumn 12, DeleteFamily 14) and the protobuf
